@@ -111,7 +111,40 @@ META["C09"] = {"files": ["utils.c"], "functions": ["cif_normalize_name", "cif_no
                "assumptions": ["malloc does not fail", "CIF_LINE_LENGTH shrunk by hook: the code is parametric in the macro (argued, not proved)"],
                "outside": ["behaviour of NFD/case-fold/NFC over the Unicode repertoire (ICU data)", "SQL comparison of keys"]}
 
-REG = {"C20": c20, "C10": c10, "C18": c18, "C09": c09}
+
+# ------------------------------------------------------------------------------------------ C08
+INIT_TABLE_LOOPS = ["@parser.c:0:0"]   # placeholder, replaced below
+
+
+def parser_unwind(K):
+    """Unwindset for harnesses that run INIT_V2_SCANNER (constant-trip table loops up to 160)."""
+    return ["harness.*:%d" % 200]
+
+
+def c08(tier):
+    qs = []
+    hook = {"CIF_API_VERIF_BUF_SIZE_INITIAL": 8, "CIF_API_VERIF_BUF_MIN_FILL": 4, "CIF_API_VERIF_LINE_LENGTH": 6}
+    for (bs, ch, mode) in (((8, 3, "func"), (8, 2, "safety")) if tier == "quick" else ((8, 4, "func"), (16, 4, "func"), (8, 3, "safety"))):
+        if True:
+            d = dict(hook); d.update({"CHUNK": ch, "BSIZE": bs})
+            qs.append(Q("C08_step_B%d_C%d_%s" % (bs, ch, mode), "h08_step.c", defs=d, extra=ICU, unwind=2 * bs + 2, mode=mode,
+                        replay_libs=ICU_LIBS, native_extra=NATIVE_ICU, mem_gb=10,
+                        bounds={"pre-state": "arbitrary valid scanner state over a %d-unit buffer (arbitrary content, text_start, token start, cr_pending)" % bs,
+                                "chunk": "arbitrary content, length 0..%d, up to 2 reads" % ch, "BUF_MIN_FILL": 4},
+                        note="one inductive fill step of get_more_chars vs reference EOL normalisation"))
+    for mode in ("func", "safety"):
+        qs.append(Q("C08_first_%s" % mode, "h08_first.c", defs=hook, extra=ICU, unwind=6, mode=mode, unwindset=["harness.*:170"],
+                    replay_libs=ICU_LIBS, native_extra=NATIVE_ICU,
+                    bounds={"input": "0..4 units, arbitrary chunking"}, note="get_first_char loses / duplicates nothing"))
+    return qs
+
+
+META["C08"] = {"files": ["parser.c"], "functions": ["get_first_char", "get_more_chars"],
+               "stubs": ["stubs/icu_str.c (exact)", "character source = nondeterministic chunking of a symbolic input"],
+               "assumptions": ["buffer sizes shrunk by hook (code parametric in the macros)", "malloc does not fail"],
+               "outside": ["the 4096-byte byte buffer and ICU's incremental conversion", "inputs longer than the bound"]}
+
+REG = {"C20": c20, "C10": c10, "C18": c18, "C09": c09, "C08": c08}
 
 
 def for_property(pid, tier):
@@ -146,3 +179,13 @@ MANI["C09"] = {
             "cif_normalize pipeline over the ICU buffer protocol, and (where listed in evidence) table/packet key matching.",
     "note": "normalisation itself is ICU's: unorm_normalize/u_strFoldCase are replaced by models (identity + ASCII fold, or tables "
             "generated from the real ICU over a finite alphabet); matching inside SQL is outside; C1 controls / U+FEFF undecided by the text are not asserted"}
+
+MANI["C08"] = {
+    "text": "Inductive bounded model checking of the scan-buffer fill: ONE call of the real get_more_chars from an ARBITRARY valid scanner "
+            "state (arbitrary buffer content, consumption point, token start, pending-CR flag) with a character source returning an "
+            "arbitrary chunk; post-state = old logical buffer ++ EOL-normalisation of exactly the units read (CR LF / CR -> LF, pairs split "
+            "across reads counted once), positions preserved across append / compaction / expansion. get_first_char likewise. Induction "
+            "over fills gives independence of chunking and buffer boundaries.",
+    "note": "buffer 8/16 units and BUF_MIN_FILL 4 via hook (code parametric in the macros - argued); chunks <= 3..4 units; memmove/memcpy "
+            "specialised to UChar units in the CBMC build (real libc in replays); the byte buffer / ICU incremental decoding are outside; "
+            "line counting of HANDLE_EOL is covered by the scanner queries of C01/C12 where listed"}
